@@ -35,6 +35,20 @@ Prefix(s, k) == [i \in 1..k |-> s[i]]
 RECURSIVE SetSeq(_)
 SetSeq(S) == IF S = {} THEN <<>> ELSE LET x == CHOOSE y \in S : TRUE IN <<x>> \o SetSeq(S \ {x})
 
+(***************************************************************************)
+(* Similarity factors.  The contracts of C18 are covariant under scaling:  *)
+(* sphere(c (P + t)) = (c (centre + t), |c| radius); kernels, normalised   *)
+(* Gram-Schmidt rows and signatures do not change when rows (or the form)  *)
+(* are multiplied by positive factors.  The specifications check these     *)
+(* laws exactly for small integer factors and name, per record, the exact  *)
+(* rational factors (powers of ten) the harness has to apply.              *)
+(***************************************************************************)
+ScaleTable == <<R(1, 1000000), R(1, 1000), R(1000, 1), R(0 - 1, 1000), R(1, 1)>>   \* any sign (similarities)
+PosScaleTable == <<R(1, 1000), R(1000, 1), R(1, 1)>>                               \* positive factors
+FoPick(tab, k) == tab[(k % Len(tab)) + 1]
+\* a cheap state-dependent index so that neighbouring records get different factors
+FoWeight(M) == ISum([i \in 1..Len(M) |-> ISum([c \in 1..Len(M[i]) |-> (i + 2 * c) * Abs(M[i][c])])])
+
 DiagMat(e) == [i \in 1..Len(e) |-> [j \in 1..Len(e) |-> IF i = j THEN e[i] ELSE 0]]
 IsSym(G) == \A i, j \in 1..Len(G) : G[i][j] = G[j][i]
 \* <u, v>_G = u^T G v
@@ -112,6 +126,18 @@ Resid(G, v, Us, Ds, j, t) ==
        IN Resid(G, v, Us, Ds, j + 1,
                 TLCEval([c \in 1..Len(v) |-> (Ds[j] * t[c] - lam * Us[j][c]) \div Dm(Ds, j - 1)]))
 NewU(G, v, Us, Ds) == Resid(G, v, Us, Ds, 1, v)
+
+\* the whole recurrence from scratch: [U, D, ok]; ok = FALSE when a size guard or a zero minor stops it
+RECURSIVE GSAll(_, _, _)
+GSAll(G, M, i) ==
+  IF i = 0 THEN [U |-> <<>>, D |-> <<>>, ok |-> TRUE]
+  ELSE LET g == GSAll(G, M, i - 1) IN
+       IF ~g.ok THEN g
+       ELSE LET u == NewU(G, M[i], g.U, g.D) IN
+            IF u = <<>> \/ Big(u) THEN [U |-> g.U, D |-> g.D, ok |-> FALSE]
+            ELSE LET d == FDot(M[i], u, G) IN
+                 IF d = 0 \/ Abs(d) > Bnd THEN [U |-> g.U, D |-> g.D, ok |-> FALSE]
+                 ELSE [U |-> Append(g.U, u), D |-> Append(g.D, d), ok |-> TRUE]
 
 \* sign of <w_i, w_i> = D_i / D_{i-1}
 Eps(Ds, i) == Sgn(Ds[i]) * Sgn(Dm(Ds, i - 1))
